@@ -551,9 +551,13 @@ def ref_table(groups, t):
     return dict((m, n) for n, ms in side.items() for m in ms)
 
 
-def _last_group_edit(ops, i):
+KERNING_EDITS = ("kset", "kdel", "kclear", "kupdate", "reloadkerning")
+
+
+def _last_edit(ops, i, kinds):
+    """call-site part of a signature: the most recent edit of one of these kinds before step i"""
     for j in range(i - 1, -1, -1):
-        if ops[j][0] in GROUP_EDITS + ("open", "kset", "kdel", "kclear", "kupdate", "reloadkerning"):
+        if ops[j][0] in kinds:
             return ops[j][0]
     return "start"
 
@@ -580,7 +584,7 @@ def check_step(w, ops, i, out, stats):
             if both:
                 stats["lookup.both-sides-grouped"] = stats.get("lookup.both-sides-grouped", 0) + 1
             if v not in allowed:
-                return dict(clause="C19/find", signature="C19/find/%s/after-%s" % (tier, _last_group_edit(ops, i)),
+                return dict(clause="C19/find", signature="C19/find/%s/after-%s" % (tier, _last_edit(ops, i, GROUP_EDITS + KERNING_EDITS + ("open",))),
                             step=i, op=op, pair=[a, b], expected=sorted(allowed), observed=v,
                             groups=groups, kerning=[[x, y, z] for (x, y), z in kerning.items()])
         return None
@@ -592,7 +596,7 @@ def check_step(w, ops, i, out, stats):
     exp = ref_table(groups, t)
     stats["table.checked"] = stats.get("table.checked", 0) + 1
     if got != exp:
-        return dict(clause="C19/table", signature="C19/table/%s/after-%s" % (t, _last_group_edit(ops, i)),
+        return dict(clause="C19/table", signature="C19/table/%s/after-%s" % (t, _last_edit(ops, i, GROUP_EDITS + ("open",))),
                     step=i, op=op, expected=exp, observed=got, groups=groups)
     return None
 
@@ -604,7 +608,6 @@ def run_impl(case):
     stats = {}
     ops = case["ops"]
     try:
-        cached_before = False
         filled = edited_after_fill = observed_after_edit = False
         for i, op in enumerate(ops):
             k = op[0]
